@@ -31,6 +31,14 @@ CHECKS = {
              "operation itself); each history is executed under the six dialect classes inline and parameterised, and TLC (J_C09) folds the logged calls "
              "through the spec and compares the real tail tokens and parameter list with the expected ones. Exhaustive over the stated product.",
         ref="6/C09", technique="TLA+ builder state machine with per-dialect PagTail (PT_Builder); TLC-generated setter histories replayed; TLC trace judge (J_C09)"),
+    "C13": dict(
+        text="PT_Builder gives for every abstract state the statement kind, completeness and the depth-0 clause sequence ClauseSeq per dialect (rank tables of "
+             "DESIGN App. C); TLC checks Confluent on the spec (adjacent independent calls commute in the model) while enumerating every subset of <=3 (quick) / "
+             "<=4 (thorough) calls of each family pool (15 SELECT, 9 INSERT/upsert, 7 UPDATE, 7 DELETE calls) and all its permutations. Every order is executed under "
+             "the six dialect classes; J_C13 (TLC) folds the logged calls through the spec and requires: clause sequence of the real tokens = ClauseSeq, balanced "
+             "brackets/quotes, empty string for incomplete states, and ONE text for all orders that keep the relative order within each clause. Differences are "
+             "attributed to adjacent transpositions. SQLite's parser prepares the SQLite-dialect statements of the SQLite-supported subset.",
+        ref="6/C13", technique="TLA+ builder state machine with ClauseSeq/Complete (PT_Builder); TLC-enumerated permutations replayed; TLC trace judge (J_C13); sqlite3 prepare"),
     "C14": dict(
         text="PT_Builder!Raises and RenderRaises give, for every call in every abstract state, the exception class that must be raised (join "
              "criterion sources vs FROM / joined / CTE / joined item under the library's table equality; conflict-handler routing; statement-kind "
